@@ -699,3 +699,72 @@ func VerifH_c18_bitop() {
 		}
 	}
 }
+
+// VerifH_c18_bitfield_offsets: BITFIELD / BITFIELD_RO with an arbitrary
+// 64-bit offset, plain and in the '#n' form: negative offsets and offsets at
+// or above 2^32 bits are refused with an error and change nothing, nothing
+// panics, and an accepted GET of bits past the end reads zeros.
+func VerifH_c18_bitfield_offsets() {
+	VerifSetup()
+	cs := vNewClient()
+	cur := vBytesN("cur", 2)
+	vCmd(cs, "SET", "k", string(cur))
+	os := vDecimal("off")
+	off := vDecimalOf(os)
+	hash := vBool("hash")
+	wi := vChoice("width", 3)
+	width := []int64{5, 8, 63}[wi]
+	typ := []string{"i5", "u8", "u63"}[wi]
+	// first multiple of the width that reaches 2^32 bits
+	limit := []int64{858993460, 536870912, 68174085}[wi]
+	arg := os
+	var bad bool
+	var eff int64
+	if hash {
+		arg = "#" + os
+		bad = off < 0 || off >= limit
+		// growth / read bound of this harness (accepted offsets up to 2^32-1
+		// are legal and make the string grow to them)
+		vAssume(bad || off < 12)
+		if !bad {
+			for i := int64(0); i < off; i++ {
+				eff += width
+			}
+		}
+	} else {
+		bad = off < 0 || off >= 4294967296
+		vAssume(bad || off < 64)
+		eff = off
+	}
+	which := vChoice("cmd", 4)
+	var args []string
+	switch which {
+	case 0:
+		args = []string{"BITFIELD", "k", "GET", typ, arg}
+	case 1:
+		args = []string{"BITFIELD_RO", "k", "GET", typ, arg}
+	case 2:
+		args = []string{"BITFIELD", "k", "SET", typ, arg, "1"}
+	case 3:
+		args = []string{"BITFIELD", "k", "INCRBY", typ, arg, "1"}
+	}
+	var r respValue
+	panicked, msg := vCatch(func() { r = vCmd(cs, args...) })
+	vAssert("bitfield-offset-no-panic", !panicked)
+	if panicked {
+		vNote(msg)
+		return
+	}
+	if bad {
+		vAssert("bitfield-bad-offset-error", vIsErr(r))
+		vAssert("bitfield-bad-offset-inert", vIsBulk(vCmd(cs, "GET", "k"), string(cur)))
+		return
+	}
+	a, ok := vArrayOf(r)
+	vAssert("bitfield-good-offset-one-result", ok && len(a) == 1)
+	if which <= 1 && ok && len(a) == 1 && eff >= 16 {
+		vAssert("bitfield-get-past-end-reads-zero", vIsInt(a[0], 0))
+		vAssert("bitfield-get-does-not-grow", vIsBulk(vCmd(cs, "GET", "k"), string(cur)))
+	}
+	vReach("bitfield-offset-accepted", !bad)
+}
